@@ -124,6 +124,10 @@ func (m *memFS) Mkdir(path string, perms fs.FileMode) error {
 	// see if it exists
 	anode.mu.Lock()
 	defer anode.mu.Unlock()
+	if base := filepath.Base(path); base == "." || base == ".." || base == pathSep {
+		// the directory itself, its parent, or the root: they exist, and must not become literal names
+		return os.ErrExist
+	}
 	if _, ok := anode.children[filepath.Base(path)]; ok {
 		return os.ErrExist
 	}
@@ -163,6 +167,12 @@ func (m *memFS) Lstat(path string) (fs.FileInfo, error) {
 
 func (m *memFS) MkdirAll(path string, perm fs.FileMode) error {
 	parts := strings.Split(path, pathSep)
+	for _, part := range parts {
+		if part == ".." {
+			// path components are looked up literally, so ".." would become a directory of that name
+			return &fs.PathError{Op: "mkdirall", Path: path, Err: fs.ErrInvalid}
+		}
+	}
 	traversed := make([]string, 0)
 	anode := m.tree
 	for _, part := range parts {
